@@ -220,6 +220,12 @@ def _repr(res, index):
             if want and not (src & want):
                 bad = True
                 res.bad("REPR-1", label + ":value:" + kw, where, f"{label}: `{kw}=` prints data from {sorted(src)} but {printed}() stores `{kw}` in {sorted(want)}")
+            part = sorted(d_[1] for d_ in v.deps if d_[0] == "subset" and d_[1] in want)
+            if part:
+                bad = True
+                res.bad("REPR-4", label + ":partial:" + kw, where, f"{label}: on some path `{kw}=` prints only part of {part[0]} (a row / column selection): "
+                        f"eval(repr(shape)) rebuilds the shape from incomplete data whenever that path is taken although the omitted part is not "
+                        "what the constructor would fill in")
             safe = v.kind in ("float", "int") or "tolist" in v.tags or (v.elem is not None and "tolist" in v.elem.tags)
             if not safe:
                 bad = True
